@@ -3,7 +3,8 @@
 meta.json that records what the change needs to manifest, how it was confirmed
 and which checks report it (from an all-properties run on the in-memory variant)."""
 import json, glob, os, re, shutil, sys
-SRC, CONF, MAT, DST = "/tmp/seedout", "/tmp/confirm", "/tmp/matrix", "/verif/seeded"
+DST = "/verif/seeded"
+ROUNDS = [("/tmp/seedout", "/tmp/confirm", "/tmp/matrix", 0), ("/tmp/seedout2", "/tmp/confirm2", "/tmp/matrix2", 2)]
 WHY = {
  "C04-2": "off-by-one inside a codec primitive's length guard (`>=` vs `>`): value-level; the reader/writer operation sequences are unchanged",
  "C08-1": "shift amount truncated to 64 bits: opcode value semantics, which C08 does not claim (only the cost/table clause)",
@@ -15,18 +16,23 @@ WHY = {
  "C22-1": "a de-duplication set in the orphan promotion queue: the maps are still written by the same functions under the lock; which orphans get re-examined is value-level",
  "C29-1": "charset lookup replaced by a reverse table whose unused entries are 0: the rule reports 'undecided' (exit 2, machinery failure) because a table's contents are values — not counted as detected",
  "C30-2": "validation rejects the empty proof: completeness for the empty list is value-level, stated as not decided",
+ "C13-4": "checkoutRewardCoinbase rewritten without the per-program map (duplicates no longer aggregated): the rule reports 'undecided' (exit 2) because the comparison no longer has the shape it can read — not counted as detected",
 }
 os.makedirs(DST, exist_ok=True)
 n = 0
-for sd in sorted(glob.glob(f"{SRC}/C*/[12]")):
+for SRC, CONF, MAT, OFF in ROUNDS:
+  for sd in sorted(glob.glob(f"{SRC}/C*/[12]")):
     pid, k = sd.split("/")[-2], sd.split("/")[-1]
-    name = f"{pid}-{k}"
-    conf = json.load(open(f"{CONF}/{name}.json"))
+    src_name = f"{pid}-{k}"
+    name = f"{pid}-{int(k)+OFF}"
+    if not os.path.exists(f"{CONF}/{src_name}.json") or not os.path.exists(f"{MAT}/{src_name}.out"):
+        print("skip (no confirmation/matrix record in /tmp):", name); continue
+    conf = json.load(open(f"{CONF}/{src_name}.json"))
     ok = conf.get("patch_applies_to_head") and conf["build_with_patch"] == "ok" and conf["existing_tests_with_patch"] == "ok" and conf["demo_with_patch"] == "fails" and conf["demo_without_patch"] == "passes"
     if not ok:
         print("skip (not confirmed):", name); continue
     src_meta = json.load(open(f"{sd}/meta.json"))
-    txt = open(f"{MAT}/{name}.out").read()
+    txt = open(f"{MAT}/{src_name}.out").read()
     det = sorted(set(re.findall(r"^VIOLATION property=(C\d+)", txt, re.M)))
     rule = ""
     m = re.search(r"violated: \[(\w[\w-]*)\] (.*?) — ", txt)
